@@ -101,6 +101,12 @@ def run_case(run, drv, case_seed):
             out, expect = [], os.path.join(work, name + ".torrent")
         if os.path.exists(m["root"]):
             cmds.append(("create", sub + opts + out + [m["root"]], expect))
+            if outkind in ("file", "existing", "link-to-file") and rng.random() < 0.6:
+                # a repeat that is refused (bad piece length / missing content): nothing changes,
+                # in particular the metafile of the first run stays
+                bad = rng.choice([["--piece-length", "13"], ["--piece-length", "12345"]])
+                wrong = m["root"] if rng.random() < 0.7 else m["root"] + "-no-such-content"
+                cmds.append(("create-refused", sub + opts + bad + out + [wrong], expect))
         case = {"case_seed": case_seed, "version": m["version"], "damaged": damaged,
                 "outkind": outkind}
         old_cwd = os.getcwd()
@@ -122,6 +128,10 @@ def run_case(run, drv, case_seed):
                 after = snapshot(box)
                 diff = changed(before, after)
                 c = dict(case, argv=[a.replace(box, "$BOX") for a in argv])
+                if not os.path.isfile(m["path"]) and not os.path.islink(m["path"]):
+                    # (reported below as a change) put the metafile back for the steps that follow
+                    with open(m["path"], "wb") as fd:
+                        fd.write(m["raw"])
                 if kind == "ro":
                     if tr.escapes or diff:
                         run.fail("impl-vs-spec", c, {"why": "inspecting command modified the filesystem",
@@ -129,6 +139,14 @@ def run_case(run, drv, case_seed):
                     word = [a for a in argv if not a.startswith("-")][0]
                     drv.ask(f"ops {('recheck' if word in ('recheck', 'check') else 'magnet' if word in ('magnet', 'm') else 'info')} {hx(b'm')}",
                             ("ro", c, mutating_tokens(tr.mutating(), box)))
+                elif kind == "create-refused":
+                    if not raised:
+                        pass        # whether the repeat is refused is C12's business, not C18's
+                    elif diff:
+                        run.fail("impl-vs-spec", c, {"why": "a refused create changed the filesystem",
+                                                     "changed": diff[:6], "raised": raised})
+                    run.case(["create-refused", m["version"], outkind], True, sample=c, classes=["create-refused"])
+                    continue
                 else:
                     want = [os.path.relpath(expect, box)]
                     if raised == "Escape":
